@@ -58,6 +58,10 @@ def gen_history(cat, prop, seed, h, tier):
     chosen = rng.sample(light_f, k)
     if "viewshed" in fams and rng.random() < (0.12 if tier == "quick" else 0.3):
         chosen.append("viewshed")
+    if prop == "C11" and h % 3 == 0 and "generators" in light_f and "generators" not in chosen:
+        # every third history carries the seeded generators (pending lazy results across other seeds,
+        # global-RNG users in between) whatever else it interleaves
+        chosen.append("generators")
     by_f = collections.defaultdict(list)
     for e in entries:
         if e[fkey] in chosen:
